@@ -58,6 +58,19 @@ CHECKS = {
         'correspondence run (all factories equal the same model); argument-form normalisation is C04.',
         'Lean 4 proof (predicates = closure relations, index bijection) + exhaustive small-scope/random differential correspondence',
         'DESIGN.md §6 C03'),
+    'C05': (
+        'Lean 4 theorems over the parsed document (every JSON field optional): the loaded terms are exactly the CLASS nodes with an OBO '
+        'PURL in a requested prefix, in document order, with the document\'s identifier, label, alternate ids and the VALUE of '
+        '`deprecated`; current terms = the non-deprecated ones; non-CLASS / non-PURL / foreign-prefix nodes contribute nothing; the '
+        'edge list is exactly the is_a edges whose endpoints resolve to retained nodes (deprecated ones included); version = date in '
+        'meta.version else the #versionInfo value; minimal and full loader agree on (id, name, alts, obsolete), edges and version; '
+        'permuting nodes and edges permutes the terms and the edge list (then C02.invariance/C06). Tie: regex recognisers compared '
+        'with the compiled patterns of the running code on every run; random grammar documents x loaders x factories x prefixes; '
+        'all term fields of the full loader; shuffles; malformed stream.',
+        'regexes are re-implemented as recognisers (ASCII \\w/\\d; ORCID xrefs outside the generator); json parsing trusted; graph '
+        'and ontology assembly are C01/C02/C06; the comment separator is a free observable.',
+        'Lean 4 proof (fold = filterMap characterisation, permutation invariance) + regex conformance + differential correspondence',
+        'DESIGN.md §6 C05'),
     'C06': (
         'Lean 4 theorems over any term list whose CURRENT terms have pairwise distinct primary/alternate ids (obsolete terms '
         'arbitrary): get_term k = t iff t is current and k is its primary or one of its alternate ids, None otherwise; an obsolete '
@@ -134,6 +147,17 @@ CHECKS = {
         'repr(float) are exercised by the correspondence run, not modelled; keys are CURIE-like (no leading #, no line breaks).',
         'Lean 4 proof (history machine + codec round trip, parametric in the source-extracted table) + exhaustive/random correspondence',
         'DESIGN.md §6 C15'),
+    'C16': (
+        'Lean 4 theorems: for every source kind whose MEASURED isinstance facts fit (FactsFit, evaluated by the compiled model on '
+        'facts measured from live instances on every run) the reading and the writing dispatcher take the branch the property requires, '
+        'everything else is rejected; for every accepted kind carrying content b the parsed text is decode b (given gunzip(gzip b) = b), '
+        'so any two accepted kinds give the same loaded object for every parser. Tie: dispatcher-level acceptance + text for 8 listed '
+        'and 8 junk kinds; the full product kinds x {load_minimal_ontology, load_ontology, SimpleHpoaDiseaseLoader.load, '
+        'SimilarityContainer.from_csv} x contents (non-ASCII; the same path overwritten between loads; ".gz" inside a directory name) '
+        'and targets x {SimilarityContainer.to_csv, AnnotationIcContainer.to_csv}; junk must give ValueError.',
+        'io / gzip / open themselves and the text encodings are exercised, not modelled; URLs out of scope (no network).',
+        'Lean 4 proof (decision table over measured class facts + codec law) + exhaustive product correspondence',
+        'DESIGN.md §6 C16'),
     'C17': (
         'Lean 4 theorems: for EVERY assignment history (any order, overwrites, out-of-shape attempts) the flat-array builder '
         '(__setitem__ with its scan over the whole column deque) is the CSR form of strictly column-sorted rows that read '
